@@ -24,7 +24,8 @@ RULE = ("seeded random occupation lists (length 0-12, values 0-6), label lists w
         "non-trivial = every case that evaluates a law on a non-empty state")
 MANDATORY = ["associativity_triple", "merge_commutativity", "unequal_same_photon_number", "herald_first", "herald_last",
              "herald_unsorted_keys", "returned_value_mutated", "annotated_label_order", "db_roundtrip",
-             "random_unitary", "random_permutation", "slices"]
+             "random_unitary", "random_permutation", "slices", "same_seed_in_another_form",
+             "seed_beyond_2^53"]
 DECIDING = ["mon.state_snapshots_verified", "law_checks"]
 BUDGET = {"quick": 20, "thorough": 300}
 ASSUMPTIONS = ["mutating a list the caller itself passed to the constructor is not 'through the API' and is excluded "
@@ -287,9 +288,23 @@ def run(ctx):
                 law(np.array_equal(lw.random_unitary(n, seed), saved),
                     "after the caller overwrote a returned matrix, the same seed gives a different / non-unitary matrix", case, "random_result_shared")
                 RAND_POOL.append(("random_unitary", n, seed, saved))
+                # a seed is a number: written as Python int, numpy integer of any width or integral float it is the same seed
+                alt = rng.choice([np.int64, np.uint32, np.uint64, float, int])(int(seed))
+                ctx.bucket("same_seed_in_another_form")
+                law(np.array_equal(lw.random_unitary(n, alt), saved),
+                    f"random_unitary({n}, {type(alt).__name__}({int(seed)})) differs from the one for the seed as {type(seed).__name__}",
+                    case, "random_seed_form")
             elif op == "perm":
                 ctx.bucket("random_permutation")
                 n = int(rng.integers(1, 13)) if rng.random() < 0.97 else int(rng.choice([16, 17, 32, 33, 64, 65])); seed = pick_seed(rng)
+                if rng.random() < 0.3:
+                    # permutations take any non-negative integer as seed: 64-bit seeds (e.g. children drawn from another
+                    # generator), beyond what a double holds exactly
+                    big = int(rng.choice([2 ** 53 + 1, 2 ** 53 + 3, 2 ** 62 + 1, 2 ** 63 - 1, 2 ** 32, 2 ** 32 + 1])) if rng.random() < 0.5 \
+                        else int(rng.integers(2 ** 53, 2 ** 63 - 1)) | 1
+                    seed = rng.choice([np.int64, np.uint64, int])(big)
+                    n = max(n, 6)        # (enough room for two seeds to differ)
+                    ctx.bucket("seed_beyond_2^53")
                 case.update(n=n, seed=seed)
                 p1, p2 = lw.random_permutation(n, seed), lw.random_permutation(n, seed)
                 ok = p1.shape == (n, n) and np.all((p1 == 0) | (p1 == 1)) and np.all(p1.sum(0) == 1) and np.all(p1.sum(1) == 1)
@@ -300,6 +315,12 @@ def run(ctx):
                 law(np.array_equal(lw.random_permutation(n, seed), saved),
                     "after the caller overwrote a returned matrix, the same seed gives a different matrix", case, "random_result_shared")
                 RAND_POOL.append(("random_permutation", n, seed, saved))
+                forms = [np.int64, np.uint64, int] + ([float] if float(int(seed)) == int(seed) else [])
+                alt = forms[int(rng.integers(len(forms)))](int(seed))
+                ctx.bucket("same_seed_in_another_form")
+                law(np.array_equal(lw.random_permutation(n, alt), saved),
+                    f"random_permutation({n}, {type(alt).__name__}({int(seed)})) differs from the one for the seed as {type(seed).__name__}",
+                    case, "random_seed_form")
             else:
                 a = occ()
                 kind_i = str(rng.choice(["list", "tuple", "ndarray", "generator"]))
